@@ -53,7 +53,9 @@ Files(S) == ZRange(S.files)
 FileNamed(S, nm) == CHOOSE f \in Files(S) : f.name = nm
 HasFile(S, nm) == \E f \in Files(S) : f.name = nm
 Items(f) == ZRange(f.items)
-ItemXmlns(it) == IF "xmlns" \in DOMAIN it THEN it.xmlns ELSE <<>>
+\* declarations on the component; for a global element with an anonymous type those on the complexType node come first
+ItemXmlns(it) == (IF "inline" \in DOMAIN it /\ "xmlns" \in DOMAIN it.inline THEN it.inline.xmlns ELSE <<>>)
+                 \o (IF "xmlns" \in DOMAIN it THEN it.xmlns ELSE <<>>)
 
 \* the URI a prefix is bound to where `it` stands in file f (declarations on the component shadow the root's)
 Binding(decls, p) == IF \E i \in 1..Len(decls) : decls[i][1] = p
@@ -185,10 +187,11 @@ Ks(n) == IF n <= 0 THEN "" ELSE "k" \o Ks(n - 1)
 Enums(fs) == [i \in 1..Cardinality({i \in 1..Len(fs) : fs[i][1] = "enum"}) |->
                 fs[CHOOSE j \in 1..Len(fs) : fs[j][1] = "enum" /\ Cardinality({k \in 1..j : fs[k][1] = "enum"}) = i][2]]
 \* upper / lower bound of the integer range (exclusive bounds moved in by one), as sets (empty = unbounded)
-UpperB(fs) == FacetVals(fs, {"maxInc"}) \cup {v - 1 : v \in FacetVals(fs, {"maxExc"})}
+\* "maxIncPlus" / "minLenPlus": the same facets with the numeral written with an explicit plus sign (+14)
+UpperB(fs) == FacetVals(fs, {"maxInc", "maxIncPlus"}) \cup {v - 1 : v \in FacetVals(fs, {"maxExc"})}
 LowerB(fs) == FacetVals(fs, {"minInc"}) \cup {v + 1 : v \in FacetVals(fs, {"minExc"})}
 MaxLenB(fs) == FacetVals(fs, {"maxLen", "len"})
-MinLenB(fs) == FacetVals(fs, {"minLen", "len"})
+MinLenB(fs) == FacetVals(fs, {"minLen", "minLenPlus", "len"})
 HasFacets(fs) == Len(fs) > 0
 ValidText(fs) ==
   IF Len(Enums(fs)) > 0 THEN Enums(fs)[1]
